@@ -16,6 +16,7 @@ theorem tie_h_lock_sock_Shutdown : Extracted.Lock.h_lock_sock_Shutdown = Canon.L
 theorem tie_h_lock_sock_Request : Extracted.Lock.h_lock_sock_Request = Canon.Lock.h_lock_sock_Request := by decide +kernel
 theorem tie_h_lock_client_GetCurrentStatus : Extracted.Lock.h_lock_client_GetCurrentStatus = Canon.Lock.h_lock_client_GetCurrentStatus := by decide +kernel
 theorem tie_h_lock_dag_SockAddr : Extracted.Lock.h_lock_dag_SockAddr = Canon.Lock.h_lock_dag_SockAddr := by decide +kernel
+theorem tie_h_lock_agent_dryRun : Extracted.Lock.h_lock_agent_dryRun = Canon.Lock.h_lock_agent_dryRun := by decide +kernel
 
 #print axioms tie_h_lock_agent_Run
 #print axioms tie_h_lock_agent_setup
@@ -30,5 +31,6 @@ theorem tie_h_lock_dag_SockAddr : Extracted.Lock.h_lock_dag_SockAddr = Canon.Loc
 #print axioms tie_h_lock_sock_Request
 #print axioms tie_h_lock_client_GetCurrentStatus
 #print axioms tie_h_lock_dag_SockAddr
+#print axioms tie_h_lock_agent_dryRun
 
 end BdModel.Tie.Lock
